@@ -1082,8 +1082,10 @@ type CallTemplateExpression struct {
 
 func (cte CallTemplateExpression) IsNode() bool { return true }
 func (cte CallTemplateExpression) Write(w io.Writer, indent int) error {
-	// Rewrite to new call syntax
-	return writeIndent(w, indent, `@`, strings.TrimSpace(cte.Expression.Value))
+	// Rewrite to new call syntax, formatted the way that syntax is formatted.
+	expression := cte.Expression
+	expression.Value = strings.TrimSpace(expression.Value)
+	return TemplElementExpression{Expression: expression}.Write(w, indent)
 }
 
 // TemplElementExpression can be used to create and render a template using data.
